@@ -30,7 +30,7 @@ func genC05(tier string, seed int64) (*Family, error) {
 		Bounds:  map[string]interface{}{},
 		Cfg:     interp.Config{MaxSteps: 3_000_000, TrackAllocs: []string{"eMsg"}, TrackFields: []string{"engine.Gengine.returnResult"}},
 		Functions: []string{"engine.Gengine).ExecuteMixModel", "engine.Gengine).ExecuteInverseMixModel", "engine.Gengine).ExecuteNSortMConcurrent",
-			"engine.Gengine).ExecuteNConcurrentMSort", "engine.Gengine).ExecuteNConcurrentMConcurrent"},
+			"engine.Gengine).ExecuteNConcurrentMSort", "engine.Gengine).ExecuteNConcurrentMConcurrent", "engine.Gengine).ExecuteSelectedRulesMixModel", "engine.Gengine).ExecuteSelectedRulesInverseMixModel", "engine.Gengine).ExecuteSelectedNSortMConcurrent"},
 	}
 	maxN := 3
 	if tier == "thorough" {
@@ -90,6 +90,34 @@ func genC05(tier string, seed int64) (*Family, error) {
 			add(fmt.Sprintf("H_%s_bad%d", strings.TrimPrefix(m.fn, "Execute"), k), m.fn+":rejected", fmt.Sprintf("%s N=%d M=%d over 3 rules is rejected", m.fn, bad[0], bad[1]),
 				fmt.Sprintf("eng.%s(%d, %d, rb, b)", m.fn, bad[0], bad[1]),
 				"\tvnd.Assert(err != nil, \"bad N/M is rejected\")\n\tvnd.Assert(len(vnd.Trace()) == 1, \"nothing runs\")\n", 3)
+		}
+	}
+	// the selected counterparts ("or selected" in the statement); C12 covers the name-list dimension
+	for _, l := range [][]string{{"r2", "r0"}, {"r1", "r2", "r0"}} {
+		k := len(l)
+		cand := make([]string, 3)
+		for i := range cand {
+			cand[i] = "false"
+		}
+		for _, nm := range l {
+			cand[int(nm[1]-'0')] = "true"
+		}
+		candLit := "[]bool{" + strings.Join(cand, ", ") + "}"
+		names := goStrings(l)
+		inv1 := "true"
+		if k >= 3 {
+			inv1 = "false"
+		}
+		add(fmt.Sprintf("H_SelMix_%d", k), "ExecuteSelectedRulesMixModel", fmt.Sprintf("selected mix model over %v", l), "eng.ExecuteSelectedRulesMixModel(rb, "+names+")",
+			tr+fmt.Sprintf("\tcheckTwoStageCand(tr, n, %s, 1, %d, true, false, s, f, false, err)\n", candLit, k-1), 3)
+		add(fmt.Sprintf("H_SelInverse_%d", k), "ExecuteSelectedRulesInverseMixModel", fmt.Sprintf("selected inverse mix model over %v", l), "eng.ExecuteSelectedRulesInverseMixModel(rb, "+names+")",
+			tr+fmt.Sprintf("\tcheckTwoStageCand(tr, n, %s, %d, 1, %s, true, s, f, false, err)\n", candLit, k-1, inv1), 3)
+		for _, m := range []struct {
+			fn     string
+			s1, s2 bool
+		}{{"ExecuteSelectedNSortMConcurrent", true, false}, {"ExecuteSelectedNConcurrentMSort", false, true}, {"ExecuteSelectedNConcurrentMConcurrent", false, false}} {
+			add(fmt.Sprintf("H_%s_%d", strings.TrimPrefix(m.fn, "ExecuteSelected"), k), m.fn, fmt.Sprintf("%s N=1 M=%d over %v", m.fn, k-1, l), fmt.Sprintf("eng.%s(1, %d, rb, b, %s)", m.fn, k-1, names),
+				tr+fmt.Sprintf("\tcheckTwoStageCand(tr, n, %s, 1, %d, %v, %v, s, f, b, err)\n", candLit, k-1, m.s1, m.s2), 3)
 		}
 	}
 	finishFamily(fam, pkg, b.String())
